@@ -12,6 +12,7 @@ import (
 	"regexp"
 	"sort"
 
+	"github.com/opencontainers/go-digest"
 	ocispec "github.com/opencontainers/image-spec/specs-go/v1"
 	"net/http"
 	oras "oras.land/oras-go/v2"
@@ -62,6 +63,9 @@ type Case struct {
 	TarFmt    string `json:"tarFmt,omitempty"`
 	// cross-repository mounting (remote destination): MountFrom answers per blob,
 	// Holds pre-populates sibling repositories of the destination registry
+	// Clash (file-store destination): the names (titles) of these nodes are already
+	// taken in the destination by OTHER content
+	Clash     []int       `json:"clash,omitempty"`
 	UseMount  bool        `json:"useMount,omitempty"`
 	MountFrom []MountSpec `json:"mountFrom,omitempty"`
 	Holds     []HoldSpec  `json:"holds,omitempty"`
@@ -313,6 +317,21 @@ func (e *Env) setupDst(ctx context.Context) (*Env, *vt.Fail) {
 			return nil, vt.Failf("harness/dst-prepush", "node %d: %v", id, err)
 		}
 	}
+	if c.DstKind == "file" {
+		for _, id := range c.Clash {
+			n := d.Nodes[d.Nodes[id].Canon]
+			if n.Spec.Title == "" {
+				continue
+			}
+			other := []byte(fmt.Sprintf("other content under the name of node %d", id))
+			od := ocispec.Descriptor{MediaType: "application/octet-stream", Digest: digest.FromBytes(other), Size: int64(len(other)),
+				Annotations: map[string]string{ocispec.AnnotationTitle: n.Spec.Title}}
+			if err := rawDst.Push(ctx, od, bytes.NewReader(other)); err != nil && !isDup(err) {
+				e.Close()
+				return nil, vt.Failf("harness/dst-clash", "node %d: %v", id, err)
+			}
+		}
+	}
 	e.RawDst = rawDst
 	e.Dst = inst.WrapRW(rawDst, e.Rec, "dst")
 	return e, nil
@@ -349,7 +368,9 @@ func (e *Env) graphOptions() oras.CopyGraphOptions {
 			}
 			return byDigest[desc.Digest.String()], nil
 		}
-		o.OnMounted = func(ctx context.Context, desc ocispec.Descriptor) error { return e.Rec.Callback(ctx, "OnMounted", desc) }
+		o.OnMounted = func(ctx context.Context, desc ocispec.Descriptor) error {
+			return e.Rec.Callback(ctx, "OnMounted", desc)
+		}
 	}
 	return o
 }
